@@ -86,7 +86,7 @@ theorem pushes_remFree {op op' : MOp} (h : op.isRem = false) (hp : Pushes op op'
 
 theorem remFree_micro {s s' : State} {th : Th} {ch ch2 : Nat} {op : MOp} {rest : List MOp} {o : Out}
     (h : remFree (op :: rest)) (hs : microStep s th ch ch2 op rest = some (s', o)) : remFree (s'.prog th) := by
-  rcases microStep_prog hs with ⟨pushed, hp, hpu⟩ | ⟨e, t, hp⟩ | hp
+  rcases microStep_prog hs with ⟨pushed, hp, hpu⟩ | ⟨⟨e, t, hp⟩, -⟩ | ⟨hp, -⟩
   · rw [hp, remFree_append]
     exact ⟨fun op' ho => pushes_remFree (h op List.mem_cons_self) (hpu op' ho), fun op' ho => h op' (List.mem_cons_of_mem _ ho)⟩
   · rw [hp]; intro op' ho; simp only [List.mem_singleton] at ho; subst ho; rfl
